@@ -173,6 +173,8 @@ def relabel(t, labelmap, aliases, prefix, alias_prefixed):
         return None
     if t[0] == 'tok':
         return ('tok', labelmap.get(t[1], t[1]), t[2])
+    if t[0] != 'tree':
+        return t
     lab = labelmap.get(t[1], t[1])
     if alias_prefixed and t[1] in aliases:
         lab = mangled(t[1], prefix)
@@ -180,7 +182,7 @@ def relabel(t, labelmap, aliases, prefix, alias_prefixed):
 
 
 def has_alias_prefixed(t, aliases, prefix):
-    if t is None or t[0] == 'tok':
+    if t is None or t[0] != 'tree':
         return False
     if any(t[1] == mangled(a, prefix) for a in aliases):
         return True
@@ -269,7 +271,7 @@ def check_case(base, S, form, variant, res, only=None):
 
 
 def _has_label(t, labels):
-    if t is None or t[0] == 'tok':
+    if t is None or t[0] != 'tree':
         return False
     return t[1] in labels or any(_has_label(c, labels) for c in t[2])
 
